@@ -12,16 +12,17 @@ ObsStore(e) == [s \in Stores |-> IF s \in DOMAIN e.store THEN PairsOf(e.store[s]
 ObsProt(e) == [s \in Stores |-> IF s \in DOMAIN e.prot THEN ToSet(e.prot[s]) ELSE {}]
 TraceInit == /\ tid \in 1..Len(Traces) /\ l = 1
              /\ ws = [p \in Paths |-> Traces[tid].init[p]] /\ store = [s \in Stores |-> {}] /\ prot = [s \in Stores |-> {}]
-             /\ row = [p \in Paths |-> NoRow] /\ act = [op |-> "Init"] /\ steps = 0
+             /\ row = [p \in Paths |-> NoRow] /\ saved = [s \in Stores |-> NoSaved] /\ act = [op |-> "Init"] /\ steps = 0
 Step(a) == \/ a.op = "Edit" /\ Edit(a.p, a.c, a.how)
            \/ a.op = "Add" /\ Add(a.s, a.how)
            \/ a.op = "Migrate" /\ Migrate(a.s, a.t)
+           \/ a.op = "Resave" /\ Resave(a.s)
 Match == Have /\ Step(Ev.act) /\ store' = ObsStore(Ev) /\ prot' = ObsProt(Ev) /\ l' = l + 1 /\ UNCHANGED tid
 Say(tag, clause) == PrintT(<<tag, "C01", clause, tid, l, {}>>)
 Fail == /\ Have /\ ~ENABLED Match
         /\ store' = ObsStore(Ev) /\ prot' = ObsProt(Ev) /\ act' = [op |-> Ev.act.op] /\ steps' = steps + 1
         /\ ws' = IF Ev.act.op = "Edit" THEN [ws EXCEPT ![Ev.act.p] = Ev.act.c] ELSE ws
-        /\ row' = [p \in Paths |-> NoRow]
+        /\ row' = [p \in Paths |-> NoRow] /\ saved' = [s \in Stores |-> NoSaved]
         /\ l' = l + 1 /\ UNCHANGED tid /\ Say("DIVERGENCE", Ev.act.op)
 Judge == /\ ((\A s \in Stores : C01_Addressed(s, store'[s])) \/ Say("VERDICT", "ContentFiledUnderWrongName"))
          /\ ((\A s \in LocalStores : C01_Protected(store'[s], prot'[s])) \/ Say("VERDICT", "LocalObjectNotReadOnly"))
